@@ -22,6 +22,7 @@ type boundedHarness struct {
 	PkgDir string
 	Prop   string
 	Bound  string
+	Rule   string
 	Src    string
 }
 
@@ -55,6 +56,11 @@ func loadBounded(prop string) []*boundedHarness {
 				h.PkgDir = strings.TrimSpace(strings.TrimPrefix(t, "package-dir:"))
 			case strings.HasPrefix(t, "property:"):
 				h.Prop = strings.TrimSpace(strings.TrimPrefix(t, "property:"))
+			case strings.HasPrefix(t, "rule:"):
+				h.Rule = strings.TrimSpace(strings.TrimPrefix(t, "rule:"))
+				for j := i + 1; j < len(lines) && strings.HasPrefix(lines[j], "//        "); j++ {
+					h.Rule += " " + strings.TrimSpace(strings.TrimPrefix(lines[j], "//"))
+				}
 			case strings.HasPrefix(t, "bound:"):
 				h.Bound = strings.TrimSpace(strings.TrimPrefix(t, "bound:"))
 				for j := i + 1; j < len(lines) && strings.HasPrefix(lines[j], "//        "); j++ {
@@ -73,8 +79,17 @@ var boundedDone = regexp.MustCompile(`GOVC-BOUNDED-DONE explored=(\d+) nontrivia
 
 // runBounded runs the harnesses of a property; returns the exit code.
 func runBounded(cfg *runConfig, hs []*boundedHarness) int {
+	return runBoundedMode(cfg, hs, false)
+}
+
+// runBoundedMode with extra=true runs the harnesses next to a property's proof obligations: replays
+// are kept, and the result is merged into the evidence file the proof run has just written (under
+// coverage.bounded_standins; the proof counts are left alone - bounded results are never counted as proved).
+func runBoundedMode(cfg *runConfig, hs []*boundedHarness, extra bool) int {
 	t0 := time.Now()
-	os.RemoveAll(filepath.Join(verifDir(), "replays", cfg.prop))
+	if !extra {
+		os.RemoveAll(filepath.Join(verifDir(), "replays", cfg.prop))
+	}
 	exit := 0
 	var cov []map[string]any
 	var samples []any
@@ -117,7 +132,7 @@ func runBounded(cfg *runConfig, hs []*boundedHarness) int {
 			}
 		}
 		m := boundedDone.FindStringSubmatch(out)
-		entry := map[string]any{"harness": filepath.Base(h.File), "package": h.PkgDir, "bound": h.Bound, "injected_with": "go test -overlay (in-package test, nothing written to /repo)"}
+		entry := map[string]any{"harness": filepath.Base(h.File), "package": h.PkgDir, "bound": h.Bound, "rule": h.Rule, "injected_with": "go test -overlay (in-package test, nothing written to /repo)"}
 		switch {
 		case m == nil:
 			// the harness did not finish: undecided, reported as such
@@ -151,6 +166,31 @@ func runBounded(cfg *runConfig, hs []*boundedHarness) int {
 		cov = append(cov, entry)
 	}
 	wall := time.Since(t0).Seconds()
+	if extra {
+		evPath := filepath.Join(verifDir(), "evidence", cfg.prop+".json")
+		var ev map[string]any
+		if b, err := os.ReadFile(evPath); err == nil && json.Unmarshal(b, &ev) == nil {
+			covm, _ := ev["coverage"].(map[string]any)
+			if covm == nil {
+				covm = map[string]any{}
+				ev["coverage"] = covm
+			}
+			covm["bounded_standins"] = map[string]any{"note": "bounded exhaustive checks of the real functions, run next to the proof obligations; labelled bounded, not counted among the discharged obligations", "harnesses": cov, "evaluations": evals, "violations": nViol, "samples": samples, "wall_s": wall}
+			as, _ := ev["assumptions"].([]any)
+			ev["assumptions"] = append(as, "bounded stand-ins (coverage.bounded_standins): nothing is claimed beyond the stated bounds; the reference checks inside the harnesses are trusted")
+			if v, ok := ev["violations"].(float64); ok {
+				ev["violations"] = int(v) + nViol
+			}
+			if w, ok := ev["wall_s"].(float64); ok {
+				ev["wall_s"] = w + wall
+			}
+			writeJSON(evPath, ev)
+		}
+		for _, c := range cov {
+			fmt.Printf("%s: bounded harness %s: explored=%v violations=%v (%s)\n", cfg.prop, c["harness"], c["explored"], c["violations"], c["bound"])
+		}
+		return exit
+	}
 	seed := 0
 	fmt.Sscanf(os.Getenv("VERIF_SEED"), "%d", &seed)
 	if len(samples) == 0 {
@@ -159,7 +199,7 @@ func runBounded(cfg *runConfig, hs []*boundedHarness) int {
 	ev := evidence{PropertyID: cfg.prop, Tier: cfg.tier, Seed: seed, Level: "exploration",
 		Coverage: map[string]any{"checker_cmd": "/verif/check " + cfg.prop + " --tier " + cfg.tier, "technique": "bounded exhaustive check of the real function (stand-in for a contract; not a proof, nothing claimed beyond the bound)", "harnesses": cov,
 			"evaluations": evals, "distinct_nontrivial": nontriv, "exhaustive": true,
-			"rule": "every (graph, source, target, maxDepth) tuple inside the stated bound is run once against the real function and a reference breadth-first search; non-trivial = a path of at least two hops exists (counted by the harness)",
+			"rule": boundedRules(hs),
 			"samples": samples},
 		Assumptions: []string{"bounded stand-in: nothing is claimed beyond the stated bound", "the reference implementation inside the harness (plain BFS) is trusted"},
 		WallS:       wall, Violations: nViol}
@@ -168,4 +208,17 @@ func runBounded(cfg *runConfig, hs []*boundedHarness) int {
 		fmt.Printf("%s: bounded harness %s: explored=%v violations=%v (%s)\n", cfg.prop, c["harness"], c["explored"], c["violations"], c["bound"])
 	}
 	return exit
+}
+
+func boundedRules(hs []*boundedHarness) string {
+	var rs []string
+	for _, h := range hs {
+		if h.Rule != "" {
+			rs = append(rs, h.Rule)
+		}
+	}
+	if len(rs) == 0 {
+		return "every input inside the stated bound is run once against the real function and compared with the reference check in the harness"
+	}
+	return strings.Join(rs, " | ")
 }
